@@ -122,6 +122,69 @@ func New() *T { return &T{} }
 func NewT() T { return T{} }
 
 func Bad() (*T, int) { return nil, 0 }
+
+type Dup struct{ A, B int }
+
+type Unexp struct {
+	A int
+	b string
+}
+`
+
+// c20Ext is a package of a third-party module (outside the user's sources).
+const c20Ext = `package xconf
+
+import "github.com/google/wire"
+
+type T struct {
+	A int
+	B string
+}
+
+func (*T) M() {}
+
+type I interface{ M() }
+
+type C struct{}
+
+func (C) M() {}
+
+type Dup struct{ A, B int }
+
+type Unexp struct {
+	A int
+	b string
+}
+
+var Default = 7
+
+var Fn = func() int { return 4 }
+
+func NewT() T { return T{} }
+
+func Bad() (*T, int) { return nil, 0 }
+
+func Bad2() {}
+
+var OKSet = wire.NewSet(NewT)
+
+var BadSet = wire.NewSet(Bad)
+
+var SuperSet = wire.NewSet(wire.NewSet(BadSet))
+
+var DupSet = wire.NewSet(wire.Struct(new(Dup), "*"))
+
+var BadBind = wire.NewSet(NewT, wire.Bind(new(I), new(T)))
+
+var BadValue = wire.NewSet(wire.Value(Fn()))
+
+var BadFields = wire.NewSet(wire.FieldsOf(new(T), "Nope"))
+
+var TwoSet = wire.NewSet(NewT, NewT)
+
+var NotASet = wire.ProviderSet{}
+
+var Unknown = wire.NewSet(Default)
 `
 
 // forms: text uses "wire." which is rewritten for dot / renamed imports.
@@ -132,21 +195,23 @@ var c20Item = []string{
 	"names", "new(int)", "struct{}{}", "[]int{1}", "map[string]int{}", "G[int]{}", "Pair[int, string]{}", "up", "unsafe.Pointer(nil)", "wire.ProviderSet{}", "&wire.ProviderSet{}", "*new(wire.ProviderSet)",
 	"wire.Binding{}", "wire.ProvidedValue{}", "wire.StructProvider{}", "wire.StructFields{}", "[]interface{}{NewS}", "interface{}(NewS)", "any(NewS)", "I(nil)", "error(nil)", "C{}", "ps", "one", "iota_",
 	"wire.NewSet(NewS, nil)", "wire.NewSet(nil)", "wire.NewSet(x)", "wire.NewSet(wire.Value)", "wire.Build(NewS)", "wire.NewSet(wire.Build(NewS))", "(wire.NewSet)(NewInt)", "(wire.NewSet(NewInt))",
-	"wire.NewSet(args...)", "wire.NewSet(names)", "conf.Default", "conf.Const", "conf.New", "conf.T{}", "conf.NewT", "conf.PT", "conf.Fn", "os.Stdin", "fmt.Sprint", "errors.New", "conf.T.Method", "conf.Default2", "os.Exit", "errors.Is", "os.Args", "fmt.Errorf", "conf.Bad", "psets.BadSet", "psets.OKSet", "psets.Nested", "pair", "NewSFrom", "fieldName", "fieldName()", "len", "new", "make([]int, 1)", "S.M", "struct{ A int }{1}", "[1]S{}", "chan int(nil)", "(chan int)(nil)",
+	"wire.NewSet(args...)", "wire.NewSet(names)", "conf.Default", "conf.Const", "conf.New", "conf.T{}", "conf.NewT", "conf.PT", "conf.Fn", "os.Stdin", "fmt.Sprint", "errors.New", "conf.T.Method", "conf.Default2", "os.Exit", "errors.Is", "os.Args", "fmt.Errorf", "conf.Bad", "psets.BadSet", "psets.OKSet", "psets.Nested", "pair", "NewSFrom", "fieldName", "fieldName()", "len", "new", "make([]int, 1)", "S.M", "struct{ A int }{1}", "[1]S{}", "chan int(nil)", "(chan int)(nil)", "conf.Dup{}", "&conf.Dup{}", "conf.Unexp{}",
+	"xconf.NewT", "xconf.T{}", "xconf.Dup{}", "&xconf.Dup{}", "xconf.Unexp{}", "xconf.Bad", "xconf.Bad2", "xconf.OKSet", "xconf.BadSet", "xconf.SuperSet", "xconf.DupSet", "xconf.BadBind", "xconf.BadValue", "xconf.BadFields", "xconf.TwoSet", "xconf.NotASet", "xconf.Unknown", "xconf.Default", "xconf.Fn",
+	"wire.NewSet(xconf.SuperSet)", "wire.NewSet(xconf.OKSet, xconf.TwoSet)",
 }
 
-var c20StructArg0 = []string{"new(conf.T)", "new(conf.G[int])", "new(S)", "(new(S))", "&S{}", "(*S)(nil)", "new(struct{ A int })", "new(G[int])", "new(Pair[int, string])", "new(int)", "new(*S)", "nil", "S{}", "new(I)", "new(F)", "ps", "NewPS()", "new(T)", "new(C)", "&struct{ A int }{}", "x", "new(wire.ProviderSet)", "new([]S)", "new(map[string]S)", "interface{}(new(S))", "any(nil)", "Gen[*S]()"}
+var c20StructArg0 = []string{"new(xconf.Dup)", "new(xconf.Unexp)", "new(xconf.T)", "new(conf.Dup)", "new(conf.Unexp)", "new(conf.T)", "new(conf.G[int])", "new(S)", "(new(S))", "&S{}", "(*S)(nil)", "new(struct{ A int })", "new(G[int])", "new(Pair[int, string])", "new(int)", "new(*S)", "nil", "S{}", "new(I)", "new(F)", "ps", "NewPS()", "new(T)", "new(C)", "&struct{ A int }{}", "x", "new(wire.ProviderSet)", "new([]S)", "new(map[string]S)", "interface{}(new(S))", "any(nil)", "Gen[*S]()"}
 
 var c20Names = []string{"", `"A"`, `"*"`, "k", "star", "names...", "`A`", `"A", "A"`, `""`, `"a"`, `"A" + ""`, "string(k)", `"A", "B"`, `"B", "A"`, `"*", "A"`, `"A", "*"`, `"V"`, `"Key"`, `"C"`, "fieldName()", `k, "B"`, `"\x41"`, `"A "`, "[]string{\"A\"}...", "nil...", `"*", "*"`, "`*`"}
 
-var c20FieldsArg0 = []string{"new(conf.T)", "new(*conf.T)", "new(S)", "new(*S)", "new(**S)", "new(*int)", "new(int)", "nil", "&S{}", "new(G[int])", "new(*G[int])", "new(struct{ A int })", "new(*struct{ A int })", "new(I)", "ps", "&ps", "new(T)", "new(*T)", "(**S)(nil)", "new(Pair[int, string])", "new([]S)", "x", "any(new(S))"}
+var c20FieldsArg0 = []string{"new(xconf.Dup)", "new(*xconf.Unexp)", "new(*xconf.T)", "new(conf.Dup)", "new(*conf.Unexp)", "new(conf.T)", "new(*conf.T)", "new(S)", "new(*S)", "new(**S)", "new(*int)", "new(int)", "nil", "&S{}", "new(G[int])", "new(*G[int])", "new(struct{ A int })", "new(*struct{ A int })", "new(I)", "ps", "&ps", "new(T)", "new(*T)", "(**S)(nil)", "new(Pair[int, string])", "new([]S)", "x", "any(new(S))"}
 
-var c20BindArg0 = []string{"new(conf.I)", "new(I)", "new(S)", "nil", "(*I)(nil)", "new(*I)", "I(nil)", "new(interface{ M() })", "new(any)", "new(error)", "x", "new(F)", "new(G[int])", "&ps", "new(int)"}
-var c20BindArg1 = []string{"new(conf.C)", "new(*conf.T)", "new(C)", "new(*S)", "new(S)", "C{}", "nil", "(*C)(nil)", "new(I)", "new(**S)", "new(G[int])", "&C{}", "new(*C)", "x", "new(*G[int])", "new(Pair[int, string])", "new(F)", "ps", "new(int)", "NewC()"}
+var c20BindArg0 = []string{"new(xconf.I)", "new(conf.I)", "new(I)", "new(S)", "nil", "(*I)(nil)", "new(*I)", "I(nil)", "new(interface{ M() })", "new(any)", "new(error)", "x", "new(F)", "new(G[int])", "&ps", "new(int)"}
+var c20BindArg1 = []string{"new(xconf.C)", "new(*xconf.T)", "new(xconf.T)", "new(conf.C)", "new(*conf.T)", "new(C)", "new(*S)", "new(S)", "C{}", "nil", "(*C)(nil)", "new(I)", "new(**S)", "new(G[int])", "&C{}", "new(*C)", "x", "new(*G[int])", "new(Pair[int, string])", "new(F)", "ps", "new(int)", "NewC()"}
 
-var c20ValueArg = []string{"conf.Default", "conf.T{A: 1}", "&conf.Default2", "conf.PT", "conf.Const", "conf.Fn", "os.Stdin", "conf.T{}.A", "NewS", "S{}", "func() {}", "Gen[int]", "G[int]{V: 1}", "Pair[int, string]{Key: 1}", "[...]int{1}", "struct{ A int }{1}", "tv.Method", "x", "&x", "*&x", "I(C{})", "any(1)", "unsafe.Pointer(nil)", "unsafe.Sizeof(x)", `len("a")`, "1 << 3", "'a'", "1.5", "2i", `"s"[0]`, "names[0]", "k", "one", "fv", "F(nil)", "up", "ps", "*ps", "ps.A", "[]S{{A: 1}}", "map[string]S{}", "(S{})", "S{}.A", "&S{}", "[2]int{}", "chan int(nil)", "(<-chan int)(nil)", "error(nil)", "true", "!true", "-x", "x + 1", "<-make(chan int)", "NewInt()", "fv()", "Gen[int]()", "new(S)", "interface{ M() }(C{})", "tv", "T{}", "C.M", "func(a int) int { return a }", "iota_", "a"}
+var c20ValueArg = []string{"xconf.Default", "xconf.T{A: 1}", "xconf.Fn", "xconf.Fn()", "xconf.Unexp{}", "conf.Default", "conf.T{A: 1}", "&conf.Default2", "conf.PT", "conf.Const", "conf.Fn", "os.Stdin", "conf.T{}.A", "NewS", "S{}", "func() {}", "Gen[int]", "G[int]{V: 1}", "Pair[int, string]{Key: 1}", "[...]int{1}", "struct{ A int }{1}", "tv.Method", "x", "&x", "*&x", "I(C{})", "any(1)", "unsafe.Pointer(nil)", "unsafe.Sizeof(x)", `len("a")`, "1 << 3", "'a'", "1.5", "2i", `"s"[0]`, "names[0]", "k", "one", "fv", "F(nil)", "up", "ps", "*ps", "ps.A", "[]S{{A: 1}}", "map[string]S{}", "(S{})", "S{}.A", "&S{}", "[2]int{}", "chan int(nil)", "(<-chan int)(nil)", "error(nil)", "true", "!true", "-x", "x + 1", "<-make(chan int)", "NewInt()", "fv()", "Gen[int]()", "new(S)", "interface{ M() }(C{})", "tv", "T{}", "C.M", "func(a int) int { return a }", "iota_", "a"}
 
-var c20IfaceVal1 = []string{"C{}", "nil", "1", "G[int]{}", "Pair[int, string]{}", "&S{}", "ps", "S{}", "NewC()", "I(C{})", "x", "new(S)", "fv", "tv", "Gen[C]()", "NewI()", "(*S)(nil)"}
+var c20IfaceVal1 = []string{"xconf.C{}", "&xconf.T{}", "xconf.T{}", "C{}", "nil", "1", "G[int]{}", "Pair[int, string]{}", "&S{}", "ps", "S{}", "NewC()", "I(C{})", "x", "new(S)", "fv", "tv", "Gen[C]()", "NewI()", "(*S)(nil)"}
 
 // result types with a provider expression
 var c20Results = [][2]string{
@@ -323,8 +388,11 @@ func (cs *C20Case) files() map[string]string {
 			fmt.Fprintf(&w, "\t%q\n", std)
 		}
 	}
-	if strings.Contains(body, "conf.") {
+	if strings.Contains(strings.ReplaceAll(body, "xconf.", ""), "conf.") {
 		fmt.Fprintf(&w, "\t%q\n", ProgPath(cs.prog)+"/conf")
+	}
+	if strings.Contains(body, "xconf.") {
+		fmt.Fprintf(&w, "\t%q\n", ExtModPath+"/xconf")
 	}
 	if strings.Contains(body, "psets.") {
 		fmt.Fprintf(&w, "\t%q\n", ProgPath(cs.prog)+"/psets")
@@ -439,6 +507,7 @@ func c20Eval(c *Ctx) func(cs []*C20Case) []c20Obs {
 				return
 			}
 			defer w.Remove()
+			w.AddExt(map[string]string{"xconf/xconf.go": c20Ext})
 			var names []string
 			for i := rs[ri].lo; i < rs[ri].hi; i++ {
 				n := fmt.Sprintf("f%05d", i)
@@ -455,7 +524,7 @@ func c20Eval(c *Ctx) func(cs []*C20Case) []c20Obs {
 			}
 			chk := w.GenAll(loaded, GenOpts{Cmd: "check", ForceSingle: func(stderr string) bool {
 				for _, line := range strings.Split(stderr, "\n") {
-					if strings.HasPrefix(line, "wire: ") && line != "wire: error loading packages" && !HasPosition(line, w.Dir) {
+					if strings.HasPrefix(line, "wire: ") && line != "wire: error loading packages" && !HasPosition(line, w.UserRoot()) {
 						return true
 					}
 				}
@@ -464,7 +533,7 @@ func c20Eval(c *Ctx) func(cs []*C20Case) []c20Obs {
 			var ok []string
 			for k, i := 0, rs[ri].lo; i < rs[ri].hi; i, k = i+1, k+1 {
 				n := names[k]
-				out[i] = c20Obs{Gen: gen[n], Check: chk[n], GenSrc: w.GenFile(n, "wire_gen.go"), Root: w.Dir}
+				out[i] = c20Obs{Gen: gen[n], Check: chk[n], GenSrc: w.GenFile(n, "wire_gen.go"), Root: w.UserRoot()}
 				if gen[n] != nil && gen[n].Status == "done" && !gen[n].Failed() && out[i].GenSrc != "" {
 					ok = append(ok, n)
 				}
